@@ -171,6 +171,19 @@ Example C15_pair_one_zero_nonvacuous :
   run_guard (GHalfWindow true true) (Lst [Int 10; Int 0]) = None.
 Proof. vm_compute. repeat split. Qed.
 
+(* CONFIGURATION WRITES.  The table of every store / delete / setattr of a fitter configuration attribute
+   (on any receiver) generated from the source has NO entry outside the constructors, the documented
+   setters and the helpers that configure a freshly built object: no fitting method switches
+   check_finite, the output dtype, the sort order or the solver of an object that outlives the call. *)
+Theorem C15_cfg_writes_none_outside : forall t : list cfgwrite,
+  cfg_writes_ok t = true -> cfg_violations t = [] /\ forall w, In w t -> cfg_allowed w = true.
+Proof. exact cfg_writes_sound. Qed.
+Print Assumptions C15_cfg_writes_none_outside.
+
+Theorem C15_cfg_writes_checked : cfg_writes_ok cfg_writes = true.
+Proof. vm_compute. reflexivity. Qed.
+Print Assumptions C15_cfg_writes_checked.
+
 Example C15_routing_hypotheses_nonvacuous :
   regular (Sc (Int 0)) = true /\ must_reject DPos false (Sc (Int 0)) = true.
 Proof. exact regular_bad_value. Qed.
